@@ -41,11 +41,21 @@ pub fn settings_from(f: &[&str]) -> Settings {
         "LALR_RN" => s = s.table_type(TableType::LALR_RN),
         _ => {}
     }
+    // the two shift preferences are independent setters: they are applied in either order (chosen by the grammar text), so
+    // that a setter that touches the other field shows as a table that differs from the requested settings
+    let pse_first = f.get(10).map_or(false, |t| (t.len() / 2) % 2 == 1);
+    if pse_first {
+        if let Some(b) = opt(f[3]) {
+            s = s.prefer_shifts_over_empty(b);
+        }
+    }
     if let Some(b) = opt(f[2]) {
         s = s.prefer_shifts(b);
     }
-    if let Some(b) = opt(f[3]) {
-        s = s.prefer_shifts_over_empty(b);
+    if !pse_first {
+        if let Some(b) = opt(f[3]) {
+            s = s.prefer_shifts_over_empty(b);
+        }
     }
     if let Some(b) = opt(f[4]) {
         s = s.lexical_disamb_most_specific(b);
@@ -215,7 +225,13 @@ fn main() {
                         let _ = std::fs::remove_dir_all(&dir);
                         match res {
                             Ok(()) => format!("ok generated={}", generated as u8),
-                            Err(e) => format!("err {}", err_class(&e)),
+                            Err(e) => {
+                                // a diagnostic is only one if it can be SHOWN: rcomp and build scripts print it with `{}`
+                                // (codesnake rendering of the location for syntax errors), which must not panic either
+                                let shown = format!("{e}");
+                                let _ = shown.len();
+                                format!("err {}", err_class(&e))
+                            }
                         }
                     },
                     30000,
